@@ -223,8 +223,12 @@ private:
 
         auto code = control_code_e(control_byte & 0b11110000);
 
-        if (code == control_code_e::pingresp)
+        if (code == control_code_e::pingresp) {
+            // PINGRESP has no variable header and no payload
+            if (first != last)
+                return complete(client::error::malformed_packet, 0, {}, {});
             return perform(asio::transfer_at_least(0));
+        }
 
         bool is_reply = code != control_code_e::publish &&
             code != control_code_e::auth &&
